@@ -130,7 +130,7 @@ def usable_pspec(pspec):
     library refuses by assertion when the parameter set is built or fingerprinted.  Such a
     (group, seed) combination is not a usable parameter set; the generator avoids it."""
     g = worlds.model_group(pspec["group"])
-    if g.kind != "int":
+    if g.kind != "int" or g.p.bit_length() > 40:
         return True
     s = worlds.seeds_of(pspec)
     return all(g.arbitrary(x) != 0 for x in (s["M"], s["N"], s["S"], b""))
